@@ -158,7 +158,7 @@ fn mutate(data: &mut Vec<u8>, rng: &mut Rng, nmut: usize) {
         let span = (hi - lo) as u64;
         // bias towards the beginning of the table, where headers/counts/offsets live
         let at = lo + if rng.chance(2, 3) { rng.below(span.min(64)) as usize } else { rng.below(span) as usize };
-        match rng.below(12) {
+        match rng.below(13) {
             0..=3 if at + 2 <= len => {
                 let v = *rng.pick(&[0u16, 1, 2, 0x7fff, 0x8000, 0xfffe, 0xffff, (hi - lo) as u16, ((hi - lo) as u16).wrapping_add(1)]);
                 data[at..at + 2].copy_from_slice(&v.to_be_bytes());
@@ -185,6 +185,39 @@ fn mutate(data: &mut Vec<u8>, rng: &mut Rng, nmut: usize) {
                 let j = rng.below(dir.len() as u64) as usize;
                 for k in 8..16 {
                     data.swap(12 + 16 * i + k, 12 + 16 * j + k);
+                }
+            }
+            11 => {
+                // a 4-letter tag followed by a 16-bit reference (sbix `dupe` records, script / feature / langsys
+                // records, ...): re-point the reference at a small index or a neighbour, which is how reference
+                // cycles and self-references come about
+                let mut hits = vec![];
+                let end = hi.min(len);
+                let mut i = lo;
+                // records whose reference is a glyph id that is followed at run time (sbix `dupe`)
+                let dupes: Vec<usize> = data.windows(4).enumerate().filter(|(_, w)| *w == b"dupe").map(|(k, _)| k).filter(|k| k + 6 <= len).collect();
+                if !dupes.is_empty() && rng.chance(1, 2) {
+                    hits = dupes;
+                    i = end;
+                }
+                while i + 6 <= end && hits.len() < 4096 {
+                    if data[i..i + 4].iter().all(|b| b.is_ascii_alphanumeric() || *b == b' ') {
+                        hits.push(i);
+                        i += 4;
+                    } else {
+                        i += 1;
+                    }
+                }
+                if !hits.is_empty() {
+                    let h = *rng.pick(&hits);
+                    let old = u16::from_be_bytes([data[h + 4], data[h + 5]]);
+                    let v = match rng.below(4) {
+                        0 => rng.below(8) as u16,
+                        1 => old.wrapping_add(1),
+                        2 => old.wrapping_sub(1),
+                        _ => old.wrapping_add(rng.range(-3, 3) as u16),
+                    };
+                    data[h + 4..h + 6].copy_from_slice(&v.to_be_bytes());
                 }
             }
             _ => {
